@@ -22,6 +22,7 @@ Fixpoint zip_env (fv : list StmtAst.ident) (args : list (option val)) : option P
   | [], [] => Some []
   | x :: fr, Some v :: ar =>
       match zip_env fr ar with Some rho => Some ((x, to_pval v) :: rho) | None => None end
+  | x :: fr, None :: ar => zip_env fr ar     (* unbound: a NameError only if the expression evaluates it *)
   | _, _ => None
   end.
 
